@@ -22,7 +22,7 @@ def run(ctx):
     ok = ctx.audit(['Scalibr.Properties.C08'], THEOREMS)
     if ctx.tier == 'thorough':
         ok = ctx.leanchecker('Scalibr.Properties.C08') and ok
-    n = {'quick': 1500, 'thorough': 40000}[ctx.tier]
+    n = {'quick': 1500, 'thorough': 40000}[ctx.tier] * W.scale(ctx)
     groups = {}
 
     def oracle(case, fi, fm):
